@@ -20,6 +20,7 @@ import (
 	"time"
 
 	badger "github.com/dgraph-io/badger/v4"
+	"github.com/dgraph-io/badger/v4/y"
 
 	"verifharness/vh"
 )
@@ -51,6 +52,7 @@ type tab struct {
 	Lo  int    `json:"lo"`
 	Hi  int    `json:"hi"`
 	Mv  uint64 `json:"mv"`
+	Sv  uint64 `json:"sv"` // version of the smallest internal key (level 0 is sorted by it)
 	W   int64  `json:"w"`
 }
 
@@ -89,7 +91,7 @@ func keyIdx(b []byte) int {
 func (d *driver) state() (tabs []tab, l0 []uint64) {
 	for lvl, ts := range d.db.VerifTables() {
 		for _, t := range ts {
-			tabs = append(tabs, tab{t.ID, lvl, keyIdx(t.Smallest), keyIdx(t.Biggest), t.MaxVersion, t.Size})
+			tabs = append(tabs, tab{t.ID, lvl, keyIdx(t.Smallest), keyIdx(t.Biggest), t.MaxVersion, y.ParseTs(t.Smallest), t.Size})
 			if lvl == 0 {
 				l0 = append(l0, t.ID)
 			}
